@@ -18,7 +18,8 @@ Verdicts == /\ Check("EqualsDefinition", EqualsDefinition, TRUE)
             /\ Check("EmptyRoundFixpoint", EmptyRoundFixpoint, TRUE)
             /\ OkSoFar
 \* Mime with plain SGD and a single local step: one full-batch gradient step over the cohort, scaled by the server
-\* learning rate (inst.mime_slr):  w - slr * lr * (w - mean of all examples of the cohort), leaf by leaf
+\* learning rate (inst.mime_slr):  w - slr * lr * (w - mean of all examples of the cohort + reg * w), leaf by leaf
+\* (the regulariser enters the full-batch gradient exactly once)
 RECURSIVE SumAll(_, _, _)
 SumAll(P, r, lf) == IF P = {} THEN 0
                    ELSE LET i == CHOOSE x \in P : TRUE
@@ -30,7 +31,9 @@ FullBatchGrad(r, w) == LET n == Examples(r)
 RECURSIVE MimeAfter(_)
 MimeAfter(r) == IF r = 0 THEN inst.init
                 ELSE LET w == MimeAfter(r - 1)
-                     IN VSub(w, VScale(FullBatchGrad(r, w), RMul(inst.mime_slr, inst.copt.lr)))
+                         g == [lf \in Leaves |-> RAdd(FullBatchGrad(r, w)[lf], RMul(inst.reg, w[lf]))]
+                     \* a cohort without examples takes no client step at all: nobody applies the (regularised) gradient
+                     IN IF Examples(r) = 0 THEN w ELSE VSub(w, VScale(g, RMul(inst.mime_slr, inst.copt.lr)))
 EmitOracle == Finished => PrintT("JSON " \o ToJson([tid |-> tid, rounds |-> [r \in 1..Len(hist) |-> hist[r].p],
                                                     sstate |-> sstate,
                                                     mime |-> [r \in 1..inst.rounds |-> MimeAfter(r)]]))
